@@ -159,7 +159,29 @@ func notifications(r *vh.Run, kind kit.Kind, nSess, nSenders, perSender int, big
 		}(s)
 	}
 	wg.Wait()
-	// quiescence: every successful targeted send has arrived (or 10 s passed)
+	// quiescence by order, not by time: one more notification per session after every sender has finished. A session's
+	// stream carries its frames in sending order, so once a session has seen its fence everything sent to it before has
+	// either arrived or never will. A fence that does not arrive within the watchdog leaves the batch unjudged.
+	for i, p := range peers {
+		fn := fmt.Sprintf("fence-%s-%d-%d", kind, nSess, i)
+		sent := false
+		giveUp := time.Now().Add(30 * time.Second)
+		for !sent && time.Now().Before(giveUp) {
+			var err error
+			if in.Server != nil {
+				err = in.Server.SendNotification(p.c.SessionID, "notifications/verif", map[string]interface{}{"nonce": fn})
+			} else {
+				err = in.SSE.SendNotification(p.c.SessionID, "notifications/verif", map[string]interface{}{"nonce": fn})
+			}
+			if sent = err == nil; !sent {
+				time.Sleep(5 * time.Millisecond) // legacy: the notification channel may still be full
+			}
+		}
+		if _, ok := p.c.Log.WaitFor(0, time.Until(giveUp)+time.Second, func(f kit.Frame) bool { return nonceOf(f.Data) == fn }); !sent || !ok {
+			r.Inconclusive(fmt.Sprintf("%s notifications (%d sessions, %d senders): the closing fence did not reach session %s within 30 s; batch not judged", kind, nSess, nSenders, p.name))
+			return
+		}
+	}
 	deadline := time.Now().Add(10 * time.Second)
 	arrived := func() map[string]map[string][]int {
 		m := map[string]map[string][]int{} // session -> nonce -> arrival indices
@@ -421,7 +443,8 @@ func main() {
 	}
 	r := vh.NewRun("C05", "exploration")
 	var wg sync.WaitGroup
-	for _, part := range []string{"notif-streamable", "notif-legacy", "roots-streamable", "roots-legacy", "roots-stdio"} {
+	for _, part := range []string{"notif-streamable", "notif-legacy", "roots-streamable", "roots-legacy", "roots-stdio",
+		"fail-streamable", "fail-streamable-sse", "fail-legacy", "fail-stdio"} {
 		wg.Add(1)
 		go func(part string) {
 			defer wg.Done()
@@ -438,8 +461,8 @@ func main() {
 		}(part)
 	}
 	wg.Wait()
-	r.Finish("raw peers, one per session, each with its listening stream (Streamable GET / legacy SSE / stdio): 1-8 sender goroutines issue SendNotification / BroadcastNotification / SendFilteredNotification with unique nonces (payloads up to 2 MiB) to 1-16 sessions plus two sessions without a stream; per stream the received multiset must equal the successful sends addressed to it, in per-sender order, counts must equal the streams reached; ListRoots from a tool handler in every session while every OTHER session posts a forged answer with the same request id first; pending tables read through the verif hook at quiescence. Distinct = (part, server kind, sessions, senders).",
-		[]string{"membership (sessions, streams) is fixed while a batch of broadcasts runs", "quiescence is established by all successful targeted sends having arrived (10 s watchdog)"})
+	r.Finish("raw peers, one per session, each with its listening stream (Streamable GET / legacy SSE / stdio): 1-8 sender goroutines issue SendNotification / BroadcastNotification / SendFilteredNotification with unique nonces (payloads up to 2 MiB) to 1-16 sessions plus two sessions without a stream; per stream the received multiset must equal the successful sends addressed to it, in per-sender order, counts must equal the streams reached; ListRoots from a tool handler in every session while every OTHER session posts a forged answer with the same request id first; pending tables read through the verif hook at quiescence. Failed server-issued requests (failures.go), per server kind (Streamable JSON and SSE answers, legacy SSE, stdio): ListRoots / SendRequest issued inside a session with a context that is already cancelled / past its deadline (many repetitions), cancelled while the request is half written (yield points sse.write.*, stdio.write.mid), cancelled / timed out while the peer stays silent, refused or stalled because the peer stopped reading its stream (legacy event queue, stdio message channel full; Streamable write stalls), no listening stream, stream closed by the peer / session deleted / stdin closed mid-request, params that cannot be encoded, unknown or missing session, a seeded concurrent mix of all of these — with the answers of abandoned requests posted late (also by another session) while the next request of the session is pending, and another session asking for its roots throughout. Judged: a call that returns without error returns the answer the addressed session posted for exactly that request; after every call of a scenario has returned the pending table has not grown; a following well-formed ListRoots returns the session's roots. Distinct = (part, server kind, sessions, senders) and (server kind, failure scenario actually exercised).",
+		[]string{"membership (sessions, streams) is fixed while a batch of broadcasts runs", "notification quiescence is established by a closing fence notification per session (frames of one stream arrive in sending order); a fence that does not arrive leaves the batch unjudged", "a failed request's call is given 40 s to return after its context ended before the part is declared inconclusive", "the tool handler's context (carrying the session) stays usable for server-issued requests while the handler has not returned"})
 }
 
 func tail(s string) string {
@@ -468,5 +491,13 @@ func run(r *vh.Run, part string) {
 		roots(r, kit.LSSE, 4, r.Pick(5, 200))
 	case "roots-stdio":
 		roots(r, kit.Stdio, 1, r.Pick(5, 200))
+	case "fail-streamable":
+		failures(r, kit.SJSON)
+	case "fail-streamable-sse":
+		failures(r, kit.SSSE)
+	case "fail-legacy":
+		failures(r, kit.LSSE)
+	case "fail-stdio":
+		failures(r, kit.Stdio)
 	}
 }
